@@ -23,7 +23,37 @@ def run(ctx):
     for i in range(n_hist):
         workloads.random_history(ctx, srv, workloads.StringsGen(ctx.rnd), n=1500 if ctx.quick else 5000,
                                  label='rand%d' % i)
-    ctx.extra_cov['distinct_cases'] = len(paths) + n_hist
+    # the forms catalogue, directly (every option combination and argument class over keys of every type)
+    import forms, formspaths
+    from session import Session, ServerDied
+    tr = ctx.new_trace('forms')
+    s = Session(srv, tr)
+    nf = 0
+    try:
+        nf = formspaths.run_forms(s, 'direct', 0)
+    except ServerDied:
+        tr.emit({'k': 'crash', 'status': srv.exit_status()})
+    s.close_all()
+    ctx.validate_segments(tr, 'forms')
+    # KEYS over the glob matrix: every pattern against every key name
+    pats, names = workloads.glob_matrix(ctx.quick)
+    s = workloads.fresh_session(ctx, srv, 'globs')
+    try:
+        c = s.open()
+        s.cmd(c, [b'FLUSHALL'])
+        for i in range(0, len(names), 20):
+            s.cmd(c, [b'MSET'] + [x for k in names[i:i + 20] for x in (k, b'v')])
+        for p in pats:
+            s.cmd(c, [b'KEYS', p])
+    except ServerDied:
+        pass
+    s.close_all()
+    ctx.validate(s.trace, label='globs')
+    if not srv.alive():
+        srv.restart()
+    ctx.extra_cov['form_segments'] = nf
+    ctx.extra_cov['glob_pairs'] = len(pats) * len(names)
+    ctx.extra_cov['distinct_cases'] = len(paths) + n_hist + nf + len(pats)
 
 
 def replay(ctx, path):
